@@ -49,5 +49,14 @@ for rel in rels:
     if kids:
       children['%s|%s' % (rel, q)] = [[k.name, len(astu.params(k))] for k in kids]
 out['__children__'] = children
+from vf.model import module_level_names
+import ast as _ast
+modnames = {}
+for rel in sorted(set(rels) | set(allrels)):
+  try:
+    modnames[rel] = sorted(module_level_names(_ast.parse(open(os.path.join('/repo', rel), encoding='utf-8').read())))
+  except (OSError, SyntaxError):
+    pass
+out['__module_names__'] = modnames
 json.dump(out, open(reference.PATH, 'w'), indent=0, sort_keys=True)
-print('rules: %d, units: %d, table: %d' % (len(out) - 6, sum(len(v['units']) for k, v in out.items() if not k.startswith('__')), len(table)))
+print('rules: %d, units: %d, table: %d' % (len(out) - 7, sum(len(v['units']) for k, v in out.items() if not k.startswith('__')), len(table)))
